@@ -28,8 +28,11 @@ pub enum Kind {
     SetU32NoHash,
     OptF64NoHash,
     RevF64NoHash,
+    /// SetSketch over signed register types (the type bounds admit them; the documentation names u16 and u32)
+    SetI16,
+    SetI64,
 }
-pub const KINDS: [Kind; 15] = [
+pub const KINDS: [Kind; 17] = [
     Kind::SmhF64,
     Kind::SmhF32,
     Kind::SmhF64NoHash,
@@ -45,13 +48,15 @@ pub const KINDS: [Kind; 15] = [
     Kind::SetU32NoHash,
     Kind::OptF64NoHash,
     Kind::RevF64NoHash,
+    Kind::SetI16,
+    Kind::SetI64,
 ];
 impl Kind {
     pub fn is_dens(&self) -> bool {
         matches!(self, Kind::OptF64 | Kind::OptF32 | Kind::RevF64 | Kind::RevF32 | Kind::OptF64NoHash | Kind::RevF64NoHash)
     }
     pub fn is_set(&self) -> bool {
-        matches!(self, Kind::SetU16 | Kind::SetU32 | Kind::SetU32NoHash)
+        matches!(self, Kind::SetU16 | Kind::SetU32 | Kind::SetU32NoHash | Kind::SetI16 | Kind::SetI64)
     }
     pub fn is_smh(&self) -> bool {
         matches!(self, Kind::SmhF64 | Kind::SmhF32 | Kind::SmhF64NoHash)
@@ -257,6 +262,8 @@ macro_rules! impl_set {
 }
 impl_set!(u16);
 impl_set!(u32);
+impl_set!(i16);
+impl_set!(i64);
 
 struct Opt<Fl: num::Float, H: Hasher + Default = FnvHasher>(OptDensMinHash<Fl, u64, H>);
 struct Rev<Fl: num::Float, H: Hasher + Default = FnvHasher>(RevOptDensMinHash<Fl, u64, H>);
@@ -318,5 +325,7 @@ pub fn make(kind: Kind, m: usize, ss: &SsParams) -> Box<dyn Sk> {
         Kind::SetU32NoHash => Box::new(SetSk::<u32, NoHashHasher>(SetSketcher::new(ss.to_params(m), Default::default()), *ss)),
         Kind::OptF64NoHash => Box::new(Opt::<f64, NoHashHasher>(OptDensMinHash::new(m, Default::default()))),
         Kind::RevF64NoHash => Box::new(Rev::<f64, NoHashHasher>(RevOptDensMinHash::new(m, Default::default()))),
+        Kind::SetI16 => Box::new(SetSk::<i16>(SetSketcher::new(ss.to_params(m), Default::default()), *ss)),
+        Kind::SetI64 => Box::new(SetSk::<i64>(SetSketcher::new(ss.to_params(m), Default::default()), *ss)),
     }
 }
